@@ -454,10 +454,8 @@ func (e *Exec) resolveAddr(s *StrV, typ string) Value {
 	}
 	ip := s.IP
 	if len(ip) == 4 {
-		// Go returns the 16-byte form for literals; allow either representation
-		if e.pick(2, "literal-form") == 1 {
-			ip = e.ipTo16(ip)
-		}
+		// Go returns the 16-byte form for IP literals
+		ip = e.ipTo16(ip)
 	}
 	e.store(e.ipField(c, "IP"), e.bytesSliceFromTerms(ip))
 	e.store(e.ipField(c, "Zone"), concStr(s.Zone))
